@@ -34,12 +34,24 @@ theorem set_isolated (s : Guts) (p : Nat) (hp : p < 2) (v : BitVec 64) :
     refine congrArg Out.ok ?_
     unfold lane32 pack32; bv_decide
 
-/-- any other parameter index is rejected (index out of bounds in the Rust): never a silent write. -/
-theorem bad_param (s : Guts) (p : Nat) (hp : 2 ≤ p) (v : BitVec 64) :
+/-- every parameter that is not 0 or 1 modulo 2^31 is rejected (index out of bounds in the Rust): never a silent
+    write.  (`param: u32`; the index is `(param << 1) | 1`, and the shift discards bit 31 of `param`.) -/
+theorem bad_param (s : Guts) (p : Nat) (hp : 2 ≤ p % 2 ^ 31) (v : BitVec 64) :
     (setStreamParam s p v).isPanic = true ∧ (getStreamParam s p).isPanic = true := by
-  have h0 : p ≠ 0 := by omega
-  have h1 : p ≠ 1 := by omega
+  have h0 : p % 2147483648 ≠ 0 := by omega
+  have h1 : p % 2147483648 ≠ 1 := by omega
   simp [setStreamParam, getStreamParam, h0, h1, Out.isPanic]
+
+/-- in particular every parameter in `2 .. 2^31 − 1` panics -/
+theorem bad_param_small (s : Guts) (p : Nat) (hp : 2 ≤ p) (hlt : p < 2 ^ 31) (v : BitVec 64) :
+    (setStreamParam s p v).isPanic = true ∧ (getStreamParam s p).isPanic = true :=
+  bad_param s p (by rw [Nat.mod_eq_of_lt hlt]; exact hp) v
+
+/-- **bit 31 of the parameter index is ignored** (the `u32` shift `param << 1` discards it): `set_stream_param(2^31, v)`
+    silently writes parameter 0, `2^31 + 1` parameter 1 — as in the Rust. -/
+theorem param_high_bit_ignored (s : Guts) (p : Nat) (_hp : p < 2 ^ 32) (v : BitVec 64) :
+    setStreamParam s p v = setStreamParam s (p % 2 ^ 31) v ∧ getStreamParam s p = getStreamParam s (p % 2 ^ 31) := by
+  simp [setStreamParam, getStreamParam]
 
 /-- The state after `set` is the state built directly with those words, hence so is all output
     that follows (any sequence of refills is a function of the state). -/
